@@ -35,6 +35,14 @@ fn check_map(toks: &[(u32, u32, bool)], maxl: u32, maxc: u32) -> Option<String> 
             }
             (g, b) => return Some(format!("tokens {toks:?}: lookup_token({l},{c}) = {g:?}, reference index {b:?}")),
         }
+        // TokenIter::seek: true exactly when the position resolves, and iteration resumes just after the token it resolves to
+        let mut ti = sm.tokens();
+        let found = match guarded(|| { let f = ti.seek(l, c); (f, ti.next().map(|t| (t.get_dst_line(), t.get_dst_col(), t.get_src_line()))) }) { Ok(x) => x, Err(p) => return Some(format!("tokens {toks:?}: seek({l},{c}): {p}")) };
+        if found.0 != got.is_some() { return Some(format!("tokens {toks:?}: seek({l},{c}) = {}, lookup_token = {got:?}", found.0)); }
+        if let Some(g) = got {
+            let idx = it.iter().position(|x| x.2 == g.2).unwrap();
+            if found.1 != it.get(idx + 1).copied() { return Some(format!("tokens {toks:?}: after seek({l},{c}) the iterator yields {:?}; the position resolves to token #{idx} of {it:?}, so {:?} was expected", found.1, it.get(idx + 1))); }
+        } else if found.1 != it.first().copied() { return Some(format!("tokens {toks:?}: a failed seek({l},{c}) moved the iterator: next is {:?}", found.1)); }
     } }
     None
 }
@@ -42,7 +50,7 @@ fn check_map(toks: &[(u32, u32, bool)], maxl: u32, maxc: u32) -> Option<String> 
 /// C04 / C07 lookup half
 pub fn lookup() -> Report {
     let maxlen = if crate::deep() { 5 } else { 4 };
-    let bound_s = format!("all non-decreasing token lists of length <= {maxlen} over positions {{0,1,2}}x{{0,2,5}} (range flag on even/odd variants), runs of 1..14 equal positions with 0..2 neighbours either side; all queries in [0,3]x[0,7]");
+    let bound_s = format!("all non-decreasing token lists of length <= {maxlen} over positions {{0,1,2}}x{{0,2,5}} (range flag on even/odd variants), runs of 1..14 equal positions with 0..2 neighbours either side; all queries in [0,3]x[0,7], each also through TokenIter::seek");
     let bound = bound_s.as_str();
     let keys: Vec<(u32, u32)> = (0..3).flat_map(|l| [0u32, 2, 5].into_iter().map(move |c| (l, c))).collect();
     let mut cases = 0u64;
